@@ -24,7 +24,8 @@ def run(replay=None):
     def log(origin, text, obj):
         nonlocal eid
         eid += 1
-        events.append({'id': eid, 'kind': 'ast', 'origin': origin, 'node': project(obj, ids=False)})
+        ev = {'id': eid, 'kind': 'ast', 'origin': origin, 'node': project(obj, ids=False)}
+        events.append(ev if len(events) < 4000 else tlc.pack(ev))      # later events are kept as JSON text (memory)
         info[eid] = (origin, text)
         rep.clause('origin:' + origin.split(':')[0].split('>')[-1])
 
@@ -53,6 +54,8 @@ def run(replay=None):
     # canary: drop a base type from an operand / widen a root
     canaries = []
     for ev in events:
+        if not isinstance(ev, dict):
+            continue
         n = ev.get('node', {})
         if n.get('cls') == 'HplBinaryOperator' and n['operand1'].get('dt') == ['NUMBER']:
             c = copy.deepcopy(ev); c['id'] = CANARY_BASE + 1
